@@ -177,7 +177,7 @@ def gen_case(rng, rich=True):
             enum_fields = it['types'][0][2]
             mc = [p[0], claim[0], [rng.choice(enum_fields)], release[0]]
     pc['mc'] = mc
-    cfg = {'file': rng.choice(['Toaster.dzn', 'dir/sub/Model.dzn', 'My.Model.dzn', comp_name + '.dzn']),
+    cfg = {'file': rng.choice(['Toaster.dzn', 'dir/sub/Model.dzn', 'My.Model.dzn', comp_name + '.dzn', 'Garden.dzn', 'sub/Buzz.dzn', 'Fond.dzn']),
            'suffix': rng.choice(['AdvShell', 'Shell', '_Impl']), 'enc': comp_scope + [comp_name], 'ports': pc,
            'fac': rng.choice(['create', 'import']), 'copyright': rng.choice(['Copyright (c) 2024 X', '(c) a\n(c) b', '', 'line\n\n  indented', 'Copyright \u00a9 2024 \u00dcn\u00efc\u00f6de \u20ac \U0001f600']),
            'sf_prefix': rng.choice([None, None, ['Other', 'Project'], ['P_1']]),
@@ -229,6 +229,14 @@ def faults(rng, case):
         variant('port-type-ambiguous', lambda c: (place(c['file'], [], ['itf', ['Amb'], [], []]),
                                                   place(c['file'], info['comp_scope'], ['itf', ['Amb'], [], []]) if info['comp_scope'] else place(c['file'], [], ['itf', ['Amb'], [], []]),
                                                   retype(c, ['Amb'])))
+        def ambiguous_other_kind(c):
+            # a declaration of ANOTHER kind under the port type's name, in the global scope: two declarations on the chain
+            comp = find_decl(c['file'], lambda d: d[0] in ('comp', 'sys') and d[1] == [cfg['enc'][-1]] and any(q[0] == p[0] for q in d[2]))
+            tname = next(q[1] for q in comp[2] if q[0] == p[0])
+            if len(tname) != 1:
+                return False
+            place(c['file'], [], ['enum', list(tname), ['A', 'B']])
+        variant('port-type-ambiguous-other-kind', ambiguous_other_kind)
     variant('select-unknown-port', lambda c: c['cfg']['ports'].__setitem__('r', [['s', ['ghost']], ['w', 'remaining']]))
     variant('select-both', lambda c: c['cfg']['ports'].__setitem__('r', [['s', ['hal']], ['s', ['hal']]]))
     variant('select-all-plus-set', lambda c: c['cfg']['ports'].__setitem__('r', [['w', 'all'], ['s', ['hal']]]))
